@@ -29,9 +29,9 @@ ASSUMPTIONS = [
     "the probability clauses are theorems about the model (Props/C18.lean cg_prob): for every functional SCM compatible with "
     "the graph (Spec/Fscm.lean: finitely many independent exogenous variables with rational pmfs, mechanisms read parents in G, "
     "noise shared only along bidirected edges; latents with parents and continuous variables are outside the class), "
-    "P(event') = P(event) and 'inconsistent' => P(event) = 0. Side condition not proved here: the nodes are processed "
-    "parents-first (`hpf`: what networkx's topological_sort returns; the model's topological_sort is compared with networkx "
-    "on every C14 run, its correctness theorem belongs to C14)",
+    "P(event') = P(event) and 'inconsistent' => P(event) = 0. No side condition on the processing order is left: cg_prob is "
+    "about the order the model of topological_sort computes (Props/C14 topologicalSort_spec: a linear extension, hence "
+    "parents-first for every compatible model)",
     "the theorems are about the hand-written model; that the model is cg.py is the correspondence check of this run "
     "(every order of the worlds; sampling, not proof); the exact evaluation on sampled functional SCMs is an independent "
     "second line (it is what found the NetworkXError defect ce3041e)",
@@ -291,8 +291,8 @@ MANIFEST = {
              "Lemma-24/25 merge loop (every parent of every un-intervened node is represented by a parent node of equal value; "
              "every prefix-restricted support of the event is unchanged). Structure: the construction is total on acyclic "
              "graphs, the returned graph is acyclic, its nodes are exactly the ancestors (inside it) of the relabelled event, "
-             "every relabelled event variable is a node, every directed edge lies over an edge of the input graph. One side "
-             "condition of cg_prob is assumed, not proved: nodes are processed parents-first (topological_sort)."),
+             "every relabelled event variable is a node, every directed edge lies over an edge of the input graph. The former "
+             "side condition of cg_prob (nodes are processed parents-first) is now proved from C14's topologicalSort_spec."),
     "note": ("Trusted: Lean kernel + the three standard axioms; the hand-written model tied to cg.py by differential testing "
              "under every order of the worlds set (sampling); Spec/Fscm.lean (functional SCMs with shared noise: the model class "
              "is discrete, independent root latents) is read, not verified, and is cross-checked against the independent Python "
